@@ -5614,6 +5614,10 @@ class CodegenCtx:
             with result as body:
                 body.add(f"state->state = {self.dfa.states.index(action.end_target)};")
                 if transition is not None:
+                    if getattr(self, "_early_advanced", False):
+                        # The start pointer was already moved past this character (see needs_early_advance), but the
+                        # error handler is about to re-process it; undo the advance so it is not consumed twice.
+                        body.add("--(*start);" if ProgramData.do(ProgramFlag.INDIRECT_START_PTR) else "--start;")
                     body.add(f"goto repeatswitch;") # Fallthrough via switch
                 else:
                     body.add(f"return {self.program_name.upper()}_OK;") # end processing instructions
@@ -5813,7 +5817,8 @@ class CodegenCtx:
         target_overriden = False
         needs_early_advance = any(x.may_return_early() for x in transition.actions)
         immediate_done = transition.target in self.dfa.accepting_states and not ProgramData.do(ProgramFlag.STRICT_DONE_TOKEN_GENERATION) and all(x.error_handling for x in transition.target.transitions)
-        if needs_early_advance and not from_end and not transition.is_fallthrough and not immediate_done:
+        self._early_advanced = needs_early_advance and not from_end and not transition.is_fallthrough and not immediate_done
+        if self._early_advanced:
             if ProgramData.do(ProgramFlag.INDIRECT_START_PTR):
                 transition_body.add(f"++(*start);");
             else:
